@@ -31,7 +31,7 @@ use crate::{
         time::{Duration, Time},
     },
     runtime::DdsRuntime,
-    transport::types::{USER_DEFINED_READER_GROUP, USER_DEFINED_TOPIC, USER_DEFINED_WRITER_GROUP},
+    transport::types::{USER_DEFINED_READER_GROUP, USER_DEFINED_WRITER_GROUP},
     xtypes::dynamic_type::DynamicType,
 };
 
@@ -49,6 +49,19 @@ impl DcpsDomainParticipant {
             QosKind::Specific(q) => q,
         };
 
+        let Some(publisher_key) = (0..=u8::MAX)
+            .map(|i| self.publisher_counter.wrapping_add(i))
+            .find(|key| {
+                !self
+                    .domain_participant
+                    .user_defined_publisher_list
+                    .iter()
+                    .any(|p| p.instance_handle[12] == *key)
+            })
+        else {
+            return Err(DdsError::OutOfResources);
+        };
+        self.publisher_counter = publisher_key.wrapping_add(1);
         let publisher_handle = InstanceHandle::new([
             self.domain_participant.instance_handle[0],
             self.domain_participant.instance_handle[1],
@@ -62,12 +75,11 @@ impl DcpsDomainParticipant {
             self.domain_participant.instance_handle[9],
             self.domain_participant.instance_handle[10],
             self.domain_participant.instance_handle[11],
-            self.publisher_counter,
+            publisher_key,
             0,
             0,
             USER_DEFINED_WRITER_GROUP,
         ]);
-        self.publisher_counter += 1;
         let data_writer_list = Default::default();
         let listener_sender = dcps_listener.map(|l| l.spawn(&runtime.spawner()));
         let mut publisher = PublisherEntity::new(
@@ -139,6 +151,19 @@ impl DcpsDomainParticipant {
             QosKind::Default => self.domain_participant.default_subscriber_qos.clone(),
             QosKind::Specific(q) => q,
         };
+        let Some(subscriber_key) = (0..=u8::MAX)
+            .map(|i| self.subscriber_counter.wrapping_add(i))
+            .find(|key| {
+                !self
+                    .domain_participant
+                    .user_defined_subscriber_list
+                    .iter()
+                    .any(|s| s.instance_handle[12] == *key)
+            })
+        else {
+            return Err(DdsError::OutOfResources);
+        };
+        self.subscriber_counter = subscriber_key.wrapping_add(1);
         let subscriber_handle = InstanceHandle::new([
             self.domain_participant.instance_handle[0],
             self.domain_participant.instance_handle[1],
@@ -152,12 +177,11 @@ impl DcpsDomainParticipant {
             self.domain_participant.instance_handle[9],
             self.domain_participant.instance_handle[10],
             self.domain_participant.instance_handle[11],
-            self.subscriber_counter,
+            subscriber_key,
             0,
             0,
             USER_DEFINED_READER_GROUP,
         ]);
-        self.subscriber_counter += 1;
 
         let listener_sender = dcps_listener.map(|l| l.spawn(&runtime.spawner()));
         let mut subscriber = UserDefinedSubscriber::new(
@@ -251,25 +275,9 @@ impl DcpsDomainParticipant {
             QosKind::Specific(q) => q,
         };
 
-        let topic_handle = InstanceHandle::new([
-            self.domain_participant.instance_handle[0],
-            self.domain_participant.instance_handle[1],
-            self.domain_participant.instance_handle[2],
-            self.domain_participant.instance_handle[3],
-            self.domain_participant.instance_handle[4],
-            self.domain_participant.instance_handle[5],
-            self.domain_participant.instance_handle[6],
-            self.domain_participant.instance_handle[7],
-            self.domain_participant.instance_handle[8],
-            self.domain_participant.instance_handle[9],
-            self.domain_participant.instance_handle[10],
-            self.domain_participant.instance_handle[11],
-            0,
-            self.domain_participant.topic_counter.to_ne_bytes()[0],
-            self.domain_participant.topic_counter.to_ne_bytes()[1],
-            USER_DEFINED_TOPIC,
-        ]);
-        self.domain_participant.topic_counter += 1;
+        let Some(topic_handle) = self.domain_participant.next_topic_handle() else {
+            return Err(DdsError::OutOfResources);
+        };
         let listener_sender = dcps_listener.map(|l| l.spawn(&runtime.spawner()));
         let topic = TopicEntity::new(
             qos,
@@ -371,25 +379,9 @@ impl DcpsDomainParticipant {
             )));
         }
 
-        let topic_handle = InstanceHandle::new([
-            self.domain_participant.instance_handle[0],
-            self.domain_participant.instance_handle[1],
-            self.domain_participant.instance_handle[2],
-            self.domain_participant.instance_handle[3],
-            self.domain_participant.instance_handle[4],
-            self.domain_participant.instance_handle[5],
-            self.domain_participant.instance_handle[6],
-            self.domain_participant.instance_handle[7],
-            self.domain_participant.instance_handle[8],
-            self.domain_participant.instance_handle[9],
-            self.domain_participant.instance_handle[10],
-            self.domain_participant.instance_handle[11],
-            0,
-            self.domain_participant.topic_counter.to_ne_bytes()[0],
-            self.domain_participant.topic_counter.to_ne_bytes()[1],
-            USER_DEFINED_TOPIC,
-        ]);
-        self.domain_participant.topic_counter += 1;
+        let Some(topic_handle) = self.domain_participant.next_topic_handle() else {
+            return Err(DdsError::OutOfResources);
+        };
 
         let topic = ContentFilteredTopicEntity::new(
             name,
